@@ -307,6 +307,41 @@ class CFG:
                     stack.append(b)
         return seen
 
+    def path_conditions(self, srcs, targets, avoid=(), labels=None, limit=4000):
+        """Branch conditions [(test expr, polarity)] of every acyclic path from srcs to any
+        of targets that does not pass through ``avoid``.  None if there are too many paths."""
+        targets, avoid = set(targets), set(avoid)
+        out = []
+        count = [0]
+
+        def dfs(n, conds, on_path):
+            if count[0] > limit:
+                return
+            if n in targets:
+                out.append(list(conds))
+                count[0] += 1
+                return
+            for b, l in self.succ[n]:
+                if labels is not None and l not in labels:
+                    continue
+                if b in on_path or b in avoid:
+                    continue
+                extra = None
+                if n.kind in ('if', 'while') and l in ('t', 'f'):
+                    extra = (n.ast, l == 't')
+                if extra:
+                    conds.append(extra)
+                on_path.add(b)
+                dfs(b, conds, on_path)
+                on_path.discard(b)
+                if extra:
+                    conds.pop()
+        for s0 in srcs:
+            if s0 in avoid:
+                continue
+            dfs(s0, [], {s0})
+        return None if count[0] > limit else out
+
     def must_pass(self, srcs, through, exits, labels=None):
         """Every path from srcs to any node in exits passes a node in through."""
         r = self.reach(srcs, avoid=through, labels=labels)
